@@ -122,18 +122,20 @@ Inductive prim : st -> st -> Prop :=
     prim s (ev (ETryRet (next_id s) (Z.of_N n))
               (ev (EChunk (next_id s) 0 n) (call0 s (ETry (next_id s) (sumN bufs)))))
 | p_shut_fail s : prim s (ev (EShut UV_ENOTCONN) s)
-| p_shut_flags s : writable s = true -> prim s (set_writable false (set_shutreq true s))
-| p_shut_ok s : writable s = false -> prim s (ev (EShut 0%Z) s)
+| p_shut_accept s : writable s = true -> shutreq s = false ->
+    prim s (ev (EShut 0%Z) (set_writable false (set_shutreq true s)))
 | p_close s : prim s (set_fdopen false (set_writable false (set_fed false (set_armed false (set_closing true s)))))
 | p_take s : pq s = [] -> prim s (set_pq (cq s) (set_cq [] s))
 | p_cb s r rest : pq s = r :: rest ->
     prim s (ev (ECb (r_id r) (r_err r)
                     (wqs (if r_freed r then set_pq rest s else set_wqs (wqs (set_pq rest s) - req_size r) (set_pq rest s))))
                (if r_freed r then set_pq rest s else set_wqs (wqs (set_pq rest s) - req_size r) (set_pq rest s)))
-| p_shutreq_clear s : prim s (set_shutreq false s)
-| p_sysshut s a : wq s = [] -> writable s = false -> prim s (ev (ESysShut a) s)
-| p_set_shut s : writable s = false -> prim s (set_shut true s)
-| p_shutcb s c : wq s = [] -> cq s = [] -> pq s = [] -> writable s = false -> prim s (ev (EShutCb c) s)
+| p_drain_cancel s : shutreq s = true -> wq s = [] -> cq s = [] -> pq s = [] ->
+    prim s (ev (EShutCb UV_ECANCELED) (set_shutreq false s))
+| p_drain_ok s : shutreq s = true -> wq s = [] -> cq s = [] -> pq s = [] -> connected s = true ->
+    prim s (ev (EShutCb 0%Z) (set_shut true (ev (ESysShut 0%Z) (set_shutreq false s))))
+| p_drain_err s a : shutreq s = true -> wq s = [] -> cq s = [] -> pq s = [] -> a <> 0%Z ->
+    prim s (ev (EShutCb a) (ev (ESysShut a) (set_shutreq false s)))
 | p_flush s : prim s (flush s)
 | p_closecb s : prim s (ev ECloseCb s)
 | p_q s : prim s (ev (EQ (wqs s)) s)
@@ -149,7 +151,9 @@ Inductive prim : st -> st -> Prop :=
 | p_write_nomem s bufs : check_before_write s = None ->
     prim s (ev (ERet (next_id s) UV_ENOMEM) (call0 s (EWrite (next_id s) (sumN bufs))))
 | p_write2_nomem s bufs : check_before_write2 s = None ->
-    prim s (ev (ERet (next_id s) UV_ENOMEM) (ev (EWrite2 (next_id s)) (call0 s (EWrite (next_id s) (sumN bufs))))).
+    prim s (ev (ERet (next_id s) UV_ENOMEM) (ev (EWrite2 (next_id s)) (call0 s (EWrite (next_id s) (sumN bufs)))))
+| p_connect_ev s c : prim s (ev (EConnect c) s)
+| p_reopen s : closing s = false -> connected s = false -> prim s (ev EReopen (set_writable true s)).
 
 Inductive steps : st -> st -> Prop :=
 | st_refl s : steps s s
@@ -236,7 +240,6 @@ Proof.
   - constructor; unfold live; cbn; auto. apply Forall_app3; auto. apply Forall_app; auto.
   - constructor; unfold live; cbn; auto. apply Forall_app3; auto. apply Forall_app; auto.
   - constructor; unfold live; cbn; auto. apply Forall_app3; auto. apply Forall_app; auto.
-  - constructor; unfold live; cbn; auto. apply Forall_app3; auto. apply Forall_app; auto.
   - (* take *)
     rewrite H in *. constructor; unfold live; cbn.
     + rewrite Hs. simpl. rewrite !sum_rem_app. simpl. lia.
@@ -252,7 +255,6 @@ Proof.
     + rewrite Hs. simpl. lia.
     + apply Forall_app3; auto.
     + apply Forall_app; auto.
-  - constructor; unfold live; cbn; auto. apply Forall_app3; auto. apply Forall_app; auto.
   - constructor; unfold live; cbn; auto. apply Forall_app3; auto. apply Forall_app; auto.
   - constructor; unfold live; cbn; auto. apply Forall_app3; auto. apply Forall_app; auto.
   - constructor; unfold live; cbn; auto. apply Forall_app3; auto. apply Forall_app; auto.
@@ -285,6 +287,8 @@ Proof.
       constructor; auto. unfold rwf, req_size; simpl. split; lia.
     + apply Forall_app; split; auto.
     + apply Forall_app; auto.
+  - constructor; unfold live; cbn; auto. apply Forall_app3; auto. apply Forall_app; auto.
+  - constructor; unfold live; cbn; auto. apply Forall_app3; auto. apply Forall_app; auto.
   - constructor; unfold live; cbn; auto. apply Forall_app3; auto. apply Forall_app; auto.
   - constructor; unfold live; cbn; auto. apply Forall_app3; auto. apply Forall_app; auto.
 Qed.
@@ -560,16 +564,17 @@ Proof.
   destruct (negb (writable s) || shut s || shutreq s || closing s || closed s) eqn:Hc.
   - split. apply steps_one, p_shut_fail. unfold aframe; cbn; auto.
   - assert (Hw : writable s = true) by (destruct (writable s); auto; discriminate).
+    assert (Hr : shutreq s = false).
+    { destruct (shutreq s); auto. rewrite Hw in Hc. cbn in Hc. destruct (shut s); discriminate. }
     set (s1 := set_writable false (set_shutreq true s)).
-    assert (P1 : prim s s1) by (apply p_shut_flags; auto).
+    assert (P1 : prim s (ev (EShut 0%Z) s1)) by (apply p_shut_accept; auto).
     destruct (wq s1) eqn:Hq.
     + split.
       * eapply st_step; [exact P1|].
-        eapply st_step; [apply p_silent with (s' := set_fed true s1); sc|].
-        apply steps_one, p_shut_ok. reflexivity.
+        apply steps_one. apply p_silent with (s' := ev (EShut 0%Z) (set_fed true s1)). sc.
       * unfold aframe; cbn; auto.
     + split.
-      * eapply st_step; [exact P1|]. apply steps_one, p_shut_ok. reflexivity.
+      * apply steps_one; exact P1.
       * unfold aframe; cbn; auto.
 Qed.
 
@@ -597,6 +602,65 @@ Proof.
   split; [apply steps_one; exact (p_write2_nomem s bufs Hc) | unfold aframe; cbn; auto].
 Qed.
 
+Lemma api_connect_sim s : steps s (api_connect s) /\ aframe s (api_connect s).
+Proof.
+  unfold api_connect.
+  destruct (closing s || negb (fdopen s) || connected s) eqn:Hg; [split; [constructor | unfold aframe; auto]|].
+  assert (Hcl : closing s = false /\ fdopen s = true /\ connected s = false).
+  { destruct (closing s), (fdopen s), (connected s); try discriminate; auto. }
+  destruct Hcl as (Hcl & Hfd & Hco).
+  assert (AF : forall x, pq x = pq s -> aframe s x).
+  { intros x Hx. unfold aframe. split; [exact Hx | intros Hf; congruence]. }
+  destruct (connecting s).
+  { destruct (is_tcp s); [split; [apply steps_one, p_connect_ev | apply AF; reflexivity]
+                         | split; [constructor | apply AF; reflexivity]]. }
+  set (cres := match connres s with [] => None | c :: _ => c end).
+  set (sA := set_connres (tl (connres s)) s).
+  assert (PA : prim s sA) by (apply p_silent; sc).
+  change (is_tcp sA) with (is_tcp s). change (writable sA) with (writable s). change (readable sA) with (readable s).
+  destruct (is_tcp s).
+  - (* uv__tcp_connect *)
+    set (s1 := if writable s then sA else ev EReopen (set_writable true sA)).
+    assert (S1 : steps s s1 /\ pq s1 = pq s).
+    { unfold s1. destruct (writable s).
+      - split; [apply steps_one; exact PA | reflexivity].
+      - split; [|reflexivity]. eapply st_step; [exact PA|]. apply steps_one. apply p_reopen; auto. }
+    destruct S1 as [S1 Hp1].
+    set (s2 := set_readable true s1).
+    assert (P2 : prim s1 s2) by (apply p_silent; sc).
+    destruct (conn_pending_ok cres).
+    + split; [|apply AF; exact Hp1].
+      eapply steps_trans; [exact S1|]. eapply st_step; [exact P2|].
+      eapply st_step; [apply p_silent with (s' := set_armed true (set_connecting true s2)); sc|].
+      apply steps_one, p_connect_ev.
+    + destruct (match cres with Some 111%positive => true | _ => false end).
+      * split; [|apply AF; exact Hp1].
+        eapply steps_trans; [exact S1|]. eapply st_step; [exact P2|].
+        eapply st_step; [apply p_silent with
+          (s' := set_fed true (set_armed true (set_derr (conn_derr cres) (set_connecting true s2)))); sc|].
+        apply steps_one, p_connect_ev.
+      * split; [|apply AF; exact Hp1].
+        eapply steps_trans; [exact S1|]. eapply st_step; [exact P2|]. apply steps_one, p_connect_ev.
+  - (* uv_pipe_connect2 on the existing socket *)
+    destruct (conn_pending_ok cres).
+    + set (s1 := if negb (readable s) && negb (writable s)
+                 then set_readable true (ev EReopen (set_writable true sA)) else sA).
+      assert (S1 : steps s s1 /\ pq s1 = pq s).
+      { unfold s1. destruct (negb (readable s) && negb (writable s)).
+        - split; [|reflexivity]. eapply st_step; [exact PA|].
+          eapply st_step; [apply p_reopen; auto|]. apply steps_one, p_silent; sc.
+        - split; [apply steps_one; exact PA | reflexivity]. }
+      destruct S1 as [S1 Hp1]. split; [|apply AF; exact Hp1].
+      eapply steps_trans; [exact S1|].
+      eapply st_step; [apply p_silent with (s' := set_armed true (set_derr 0%Z (set_connecting true s1))); sc|].
+      apply steps_one, p_connect_ev.
+    + split; [|apply AF; reflexivity].
+      eapply st_step; [exact PA|].
+      eapply st_step; [apply p_silent with
+        (s' := set_fed true (set_derr (conn_derr cres) (set_connecting true sA))); sc|].
+      apply steps_one, p_connect_ev.
+Qed.
+
 Lemma api_sim s o : steps s (api s o) /\ aframe s (api s o).
 Proof.
   destruct o; cbn [api].
@@ -605,6 +669,7 @@ Proof.
   - split; [apply steps_one, p_silent; sc | unfold aframe; cbn; auto].
   - apply api_write_nomem_sim.
   - apply api_write2_nomem_sim.
+  - apply api_connect_sim.
   - split; [constructor | unfold aframe; auto].
 Qed.
 
@@ -623,17 +688,16 @@ Proof.
 Qed.
 
 (* flags needed to place the shutdown(2) call *)
-Definition Inv0 (s : st) : Prop :=
-  (shutreq s = true -> writable s = false) /\
-  (closing s = true -> writable s = false /\ fdopen s = false).
+Definition Inv0 (s : st) : Prop := closing s = true -> writable s = false /\ fdopen s = false.
 
 Lemma Inv0_prim s s' : prim s s' -> Inv0 s -> Inv0 s'.
 Proof.
-  intros P [A B]. destruct P; unfold Inv0, call0, finish_head, flush in *; cbn in *; auto;
+  intros P B. unfold Inv0 in *.
+  destruct P; unfold call0, finish_head, flush in *; cbn in *; auto;
     try (destruct (r_freed r); cbn; auto; fail); try (destruct (_ =? _)%Z; cbn; auto; fail).
-  - destruct H as (_ & _ & _ & _ & E1 & E2 & _ & E3 & E4 & _). rewrite E1, E2, E3, E4. auto.
-  - split; auto. intros Hc. apply B in Hc. tauto.
-  - split; [discriminate | auto].
+  - destruct H as (_ & _ & _ & _ & _ & E2 & _ & E3 & E4 & _). rewrite E2, E3, E4. auto.
+  - intros Hc. apply B in Hc. tauto.
+  - congruence.
 Qed.
 
 Lemma Inv0_steps s s' : steps s s' -> Inv0 s -> Inv0 s'.
@@ -681,46 +745,42 @@ Proof.
     split; [|split]; auto. eapply st_step; eauto.
 Qed.
 
-Lemma drain_sim s : Inv0 s -> wq s = [] -> cq s = [] -> pq s = [] ->
+Lemma drain_sim s : wq s = [] -> cq s = [] -> pq s = [] ->
   steps s (drain beh s) /\ pq (drain beh s) = [].
 Proof.
-  intros [I1 I2] Hq Hcq Hp. unfold drain.
+  intros Hq Hcq Hp. unfold drain.
   set (s1 := if closing s then s else set_armed false s).
   assert (S1 : steps s s1).
   { unfold s1. destruct (closing s); [constructor | apply steps_one, p_silent; sc]. }
-  assert (E1 : wq s1 = [] /\ cq s1 = [] /\ pq s1 = [] /\ shutreq s1 = shutreq s /\ writable s1 = writable s /\
-               closing s1 = closing s /\ shut s1 = shut s).
+  assert (E1 : wq s1 = [] /\ cq s1 = [] /\ pq s1 = []).
   { unfold s1. destruct (closing s) eqn:Hcs; cbn; repeat split; auto. }
-  destruct E1 as (Hq1 & Hc1 & Hp1 & Esr & Ew & Ec & Esh).
+  destruct E1 as (Hq1 & Hc1 & Hp1).
   destruct (shutreq s1) eqn:Hsr; cbn [negb].
   2: { split; auto. }
-  assert (Hw1 : writable s1 = false) by (rewrite Ew; apply I1; congruence).
   destruct (closing s1 || negb (shut s1)) eqn:Hcond.
   2: { split; auto. }
   set (s2 := set_shutreq false s1).
-  assert (P2 : prim s1 s2) by apply p_shutreq_clear.
   change (closing s2) with (closing s1).
   destruct (closing s1) eqn:Hcl.
   - set (s3 := ev (EShutCb UV_ECANCELED) s2).
-    assert (P3 : prim s2 s3) by (apply p_shutcb; [exact Hq1 | exact Hc1 | exact Hp1 | exact Hw1]).
+    assert (P3 : prim s1 s3) by (apply p_drain_cancel; auto).
     destruct (run_cb_sim s3) as [A [B _]]. split.
-    + eapply steps_trans; [exact S1|]. eapply st_step; [exact P2|]. eapply st_step; [exact P3|]. exact A.
+    + eapply steps_trans; [exact S1|]. eapply st_step; [exact P3|]. exact A.
     + rewrite B. exact Hp1.
-  - set (s3 := ev (ESysShut (shutans s2)) s2).
-    assert (P3 : prim s2 s3) by (apply p_sysshut; auto).
-    change (shutans s3) with (shutans s2).
-    destruct (shutans s2 =? 0)%Z.
-    + set (s4 := set_shut true s3).
-      assert (P4 : prim s3 s4) by (apply p_set_shut; auto).
-      set (s5 := ev (EShutCb 0%Z) s4).
-      assert (P5 : prim s4 s5) by (apply p_shutcb; [exact Hq1 | exact Hc1 | exact Hp1 | exact Hw1]).
+  - destruct (Z.eqb_spec (shutdown_answer s2) 0) as [E|E].
+    + rewrite E.
+      assert (Hco : connected s1 = true).
+      { unfold shutdown_answer in E. change (connected s2) with (connected s1) in E.
+        destruct (connected s1); [reflexivity | discriminate]. }
+      set (s5 := ev (EShutCb 0%Z) (set_shut true (ev (ESysShut 0%Z) s2))).
+      assert (P5 : prim s1 s5) by (apply p_drain_ok; auto).
       destruct (run_cb_sim s5) as [A [B _]]. split.
-      * eapply steps_trans; [exact S1|]. repeat (eapply st_step; [eassumption|]). exact A.
+      * eapply steps_trans; [exact S1|]. eapply st_step; [exact P5|]. exact A.
       * rewrite B. exact Hp1.
-    + set (s5 := ev (EShutCb (shutans s2)) s3).
-      assert (P5 : prim s3 s5) by (apply p_shutcb; [exact Hq1 | exact Hc1 | exact Hp1 | exact Hw1]).
+    + set (s5 := ev (EShutCb (shutdown_answer s2)) (ev (ESysShut (shutdown_answer s2)) s2)).
+      assert (P5 : prim s1 s5) by (apply p_drain_err; auto).
       destruct (run_cb_sim s5) as [A [B _]]. split.
-      * eapply steps_trans; [exact S1|]. repeat (eapply st_step; [eassumption|]). exact A.
+      * eapply steps_trans; [exact S1|]. eapply st_step; [exact P5|]. exact A.
       * rewrite B. exact Hp1.
 Qed.
 
@@ -736,11 +796,10 @@ Proof.
   destruct (error =? - EINPROGRESS)%Z.
   { split; [apply steps_one; exact P1 | exact Hp1]. }
   set (s2 := set_connecting false s1).
-  set (s3 := if (error <? 0)%Z || match wq s2 with [] => true | _ :: _ => false end
-             then set_armed false s2 else s2).
-  assert (P3 : prim s1 s3).
-  { apply p_silent. unfold s3. destruct ((error <? 0)%Z || _); sc. }
-  assert (Hp3 : pq s3 = []) by (unfold s3; destruct ((error <? 0)%Z || _); exact Hp1).
+  match goal with |- context [run_cb beh (ev (EConnCb error) ?x)] => set (s3 := x) end.
+  assert (P3 : prim s1 s3 /\ pq s3 = []).
+  { unfold s3. destruct (error <? 0)%Z; destruct ((_ : bool) || _); cbn; split; try exact Hp1; apply p_silent; sc. }
+  destruct P3 as [P3 Hp3].
   set (s3' := ev (EConnCb error) s3).
   assert (P3' : prim s3 s3') by apply p_conncb.
   destruct (run_cb_sim s3') as [A [B _]].
@@ -751,7 +810,11 @@ Proof.
   destruct (error <? 0)%Z; [|split; auto].
   assert (P5 : prim s4 (flush s4)) by apply p_flush.
   destruct (write_callbacks_sim (flush s4) Hp4) as (C & D & _).
-  split; auto. eapply steps_trans; [exact S4|]. eapply st_step; [exact P5|]. exact C.
+  set (s5 := write_callbacks beh (flush s4)) in *.
+  assert (S5 : steps s s5) by (eapply steps_trans; [exact S4|]; eapply st_step; [exact P5|]; exact C).
+  destruct (shutreq s5 && negb (connecting s5) && fdopen s5); [|split; auto].
+  destruct (wq s5) eqn:Hq5; [|split; auto]. destruct (cq s5) eqn:Hc5; [|split; auto].
+  destruct (drain_sim s5 Hq5 Hc5 D) as [E F]. split; eauto using steps_trans.
 Qed.
 
 Lemma stream_io_sim s : Inv0 s -> pq s = [] ->
@@ -767,8 +830,7 @@ Proof.
   assert (S2 : steps s s2) by eauto using steps_trans.
   destruct (wq s2) eqn:Hq; [|split; auto].
   destruct (cq s2) eqn:Hc; [|split; auto].
-  assert (I2 : Inv0 s2) by (eapply Inv0_steps; eauto).
-  destruct (drain_sim s2 I2 Hq Hc Hp2) as [C D].
+  destruct (drain_sim s2 Hq Hc Hp2) as [C D].
   split; eauto using steps_trans.
 Qed.
 
@@ -778,7 +840,7 @@ Proof.
   intros I Hc Hp. unfold destroy.
   set (s0 := set_closed true s).
   assert (P0 : prim s s0) by (apply p_silent; sc).
-  assert (Hfd0 : fdopen s0 = false) by (destruct I as [_ I2]; apply I2 in Hc; apply Hc).
+  assert (Hfd0 : fdopen s0 = false) by (apply I in Hc; apply Hc).
   set (sc1 := if connecting s0
               then set_connecting false (run_cb beh (ev (EConnCb UV_ECANCELED) s0)) else s0).
   assert (S1 : steps s0 sc1 /\ pq sc1 = [] /\ fdopen sc1 = false).
@@ -802,8 +864,7 @@ Proof.
   set (s2 := write_callbacks beh s1) in *.
   assert (S2 : steps s s2).
   { eapply st_step; [exact P0|]. eapply steps_trans; [exact S1|]. eapply st_step; [exact P1|]. exact A. }
-  assert (I2 : Inv0 s2) by (eapply Inv0_steps; eauto).
-  destruct (drain_sim s2 I2 Hq2 Hc2 Hp2) as [C D].
+  destruct (drain_sim s2 Hq2 Hc2 Hp2) as [C D].
   split.
   - eapply steps_trans; [exact S2|]. eapply steps_trans; [exact C|]. apply steps_one, p_closecb.
   - exact D.
@@ -889,10 +950,10 @@ End Sim.
 
 (* the three shapes of a start state *)
 Ltac init_cases c :=
-  destruct c as [[[tcp cres] so]|]; unfold init; [destruct (conn_pending_ok cres); [|destruct tcp]|].
+  destruct c as [[[[tcp cres] so] cr]|]; unfold init; [destruct (conn_pending_ok cres); [|destruct tcp]|].
 
 Lemma Inv0_init blk o sa pw c ip : Inv0 (init blk o sa pw c ip).
-Proof. unfold Inv0. init_cases c; cbn; split; discriminate. Qed.
+Proof. unfold Inv0. init_cases c; cbn; discriminate. Qed.
 
 Lemma pq_init blk o sa pw c ip : pq (init blk o sa pw c ip) = [].
 Proof. init_cases c; reflexivity. Qed.
@@ -947,7 +1008,7 @@ Definition ev_id_lt (n : nat) (e : event) : Prop :=
 Definition neutral (e : event) : Prop :=
   match e with
   | EShut _ | ESysShut _ | EShutCb _ | ECloseCb | EQ _ | ETry _ _ | ETryRet _ _ | EConnCb _
-  | EWrite2 _ | EFd _ | EFdFail _ => True
+  | EWrite2 _ | EFd _ | EFdFail _ | EConnect _ | EReopen => True
   | _ => False
   end.
 
@@ -1245,7 +1306,6 @@ Proof.
   - apply I2_neutral; simpl; auto. apply I2_neutral; simpl; auto. apply I2_bump; auto.
   - apply I2_try_ok; auto.
   - apply I2_neutral; simpl; auto.
-  - exact I.
   - apply I2_neutral; simpl; auto.
   - exact I.
   - rewrite H in I. simpl in I. try rewrite app_nil_r. exact I.
@@ -1254,10 +1314,9 @@ Proof.
     inversion Hw as [|? ? [_ Hr] _]; subst. inversion Hd as [|? ? [Hz _] _]; subst.
     assert (Hst : r_err r = 0%Z -> r_off r = r_total r) by (intros X; apply Hz in X; lia).
     destruct (r_freed r); cbn; eapply I2_cb; eauto.
-  - exact I.
   - apply I2_neutral; simpl; auto.
-  - exact I.
-  - apply I2_neutral; simpl; auto.
+  - apply I2_neutral; simpl; auto. apply I2_neutral; simpl; auto.
+  - apply I2_neutral; simpl; auto. apply I2_neutral; simpl; auto.
   - rewrite app_nil_r. rewrite !map_app in *. rewrite map_lkey_set_err. exact I.
   - apply I2_neutral; simpl; auto.
   - apply I2_neutral; simpl; auto.
@@ -1297,6 +1356,8 @@ Proof.
     + simpl. intros X. apply (cb_ids_fresh _ _ B) in X. lia.
     + intros X. apply in_map_iff in X. destruct X as (k & Ek & Hk).
       rewrite Forall_forall in C. apply C in Hk. lia.
+  - apply I2_neutral; simpl; auto.
+  - apply I2_neutral; simpl; auto.
 Qed.
 
 Lemma Inv12_steps s s' : steps s s' -> Inv1 s /\ Inv2 s -> Inv1 s' /\ Inv2 s'.
@@ -1578,15 +1639,13 @@ Proof.
     + exists (sumN bufs). right; left; auto.
     + apply I3_chunk_fresh; auto. apply I3_etry; auto. apply I3_bump; auto.
   - apply I3_plain; simpl; auto.
-  - exact I.
   - apply I3_plain; simpl; auto.
   - exact I.
   - exact I.
   - destruct (r_freed r); cbn; apply I3_plain; simpl; auto.
-  - exact I.
   - apply I3_plain; simpl; auto.
-  - exact I.
-  - apply I3_plain; simpl; auto.
+  - apply I3_plain; simpl; auto. apply I3_plain; simpl; auto.
+  - apply I3_plain; simpl; auto. apply I3_plain; simpl; auto.
   - eapply I3_nil; eauto.
   - apply I3_plain; simpl; auto.
   - apply I3_plain; simpl; auto.
@@ -1600,6 +1659,8 @@ Proof.
     + apply I3_plain; simpl; auto. apply I3_ewrite; auto. apply I3_bump; auto.
   - apply I3_plain; simpl; auto. apply I3_ewrite; auto. apply I3_bump; auto.
   - apply I3_plain; simpl; auto. apply I3_plain; simpl; auto. apply I3_ewrite; auto. apply I3_bump; auto.
+  - apply I3_plain; simpl; auto.
+  - apply I3_plain; simpl; auto.
 Qed.
 
 Lemma Inv3_init blk o sa pw c ip : Inv3 (init blk o sa pw c ip).
@@ -1815,7 +1876,7 @@ Definition inert (e : event) : Prop :=
 Lemma Inv4_inert s e : inert e -> Inv4 s -> Inv4 (ev e s).
 Proof.
   intros Hi. apply Inv4_event.
-  - intros X _. unfold hold_ok. destruct X as [| | | | | | z | | | | | | | |]; auto; try (destruct e; simpl in *; tauto).
+  - intros X _. unfold hold_ok. destruct X as [| | | | | | z | | | | | | | | | |]; auto; try (destruct e; simpl in *; tauto).
     destruct z; auto. destruct e; simpl in *; tauto.
   - destruct e; simpl in *; tauto.
 Qed.
@@ -1839,7 +1900,7 @@ Proof.
   - intros c H. destruct (E c H) as [_ X]. rewrite X in Hw. discriminate.
 Qed.
 
-Ltac hold_cases X z a c := destruct X as [| | | | | | z | a | c | | | | | |]; unfold hold_ok; simpl; auto;
+Ltac hold_cases X z a c := destruct X as [| | | | | | z | a | c | | | | | | | |]; unfold hold_ok; simpl; auto;
                            [destruct z; simpl; auto | ..].
 
 Lemma Inv4_prim s s' : prim s s' -> Inv4 s -> Inv4 s'.
@@ -1888,8 +1949,8 @@ Proof.
     + apply Inv4_inert; simpl; auto. apply (Inv4_state s); auto.
   - apply Inv4_event; [ | simpl; auto | exact I].
     intros X HX. hold_cases X z a c.
-  - apply (Inv4_state s); auto.
-  - apply Inv4_event; [ | exact H | exact I].
+  - (* uv_shutdown accepted *)
+    apply Inv4_event; [ | reflexivity | apply (Inv4_state s); auto].
     intros X HX. hold_cases X z a c.
   - apply (Inv4_state s); auto.
   - (* take *)
@@ -2470,7 +2531,7 @@ End ProgCb.
 
 Lemma Prog_init blk o sa pw c ip : Prog (init blk o sa pw c ip).
 Proof.
-  destruct c as [[[tcp cres] so]|]; unfold init.
+  destruct c as [[[[tcp cres] so] cr]|]; unfold init.
   - destruct (conn_pending_ok cres) eqn:Hp.
     + split; [unfold FC; cbn; discriminate|]. right; cbn. split; [left; auto | auto].
     + assert (Hd : (conn_derr cres < 0)%Z /\ conn_derr cres <> (- EINPROGRESS)%Z).
@@ -2791,15 +2852,13 @@ Proof.
     + intros [X|X]; [discriminate|]. apply (fresh_no_event _ _ Jf) in X. simpl in X. lia.
     + apply I5_boring; simpl; auto.
   - apply I5_boring; simpl; auto.
-  - exact I.
   - apply I5_boring; simpl; auto.
   - exact I.
   - exact I.
   - destruct (r_freed r); cbn; apply I5_boring; simpl; auto.
-  - exact I.
   - apply I5_boring; simpl; auto.
-  - exact I.
-  - apply I5_boring; simpl; auto.
+  - apply I5_boring; simpl; auto. apply I5_boring; simpl; auto.
+  - apply I5_boring; simpl; auto. apply I5_boring; simpl; auto.
   - eapply I5_sub; [|exact I]. intros r' [].
   - apply I5_boring; simpl; auto.
   - apply I5_boring; simpl; auto.
@@ -2824,6 +2883,8 @@ Proof.
   - apply I5_boring; simpl; auto. apply I5_mark; auto.
     + apply Hnochunk. intros e0 [<-|He]; [right; simpl; auto | left; exact He].
     + apply I5_boring; simpl; auto.
+  - apply I5_boring; simpl; auto.
+  - apply I5_boring; simpl; auto.
 Qed.
 
 Lemma Inv5_init blk o sa pw c ip : Inv5 (init blk o sa pw c ip).
